@@ -102,6 +102,22 @@ def gen_inputs(ctx):
             ns = sorted({1, m, max(1, m - 1), m + 1}) if (ctx.quick() or m == 5) else list(range(1, 6))
             for n in ns:
                 out.append((f'forced:{m}x{n}:{perm}', forced(rng, m, n, perm)))
+    # structured zeros: pivot rows that vanish to the right of the pivot while later columns still need elimination (lower-triangular /
+    # lower-trapezoidal with a dominant diagonal, block-diagonal, a row a e_1^T with the largest modulus of its column), plain and row-permuted
+    for (m, n) in ((3, 3), (4, 4), (5, 3), (3, 5), (4, 3), (5, 5)) if ctx.quick() else ((3, 3), (4, 4), (5, 3), (3, 5), (4, 3), (5, 5), (6, 4), (4, 6), (6, 6)):
+        for kind in ('lower-dominant', 'block-diagonal', 'first-row-e1', 'lower-dominant-permuted', 'step1-row-e2'):
+            A = qx.rand_int(rng, m, n, -3, 3)
+            if kind.startswith('lower-dominant'):
+                A = [[(A[i][j] if j < i else (Q(9 + i, 1, 0, -1) if i == j else Q())) for j in range(n)] for i in range(m)]
+                if kind.endswith('permuted'): A = A[1:] + A[:1]
+            elif kind == 'block-diagonal':
+                A = [[(Q(9, 0, 2, 0) if (i, j) == (0, 0) else (Q() if (i == 0) != (j == 0) else A[i][j])) for j in range(n)] for i in range(m)]
+            elif kind == 'first-row-e1':
+                A[m - 1] = [Q(0, 9, 0, 1)] + [Q() for _ in range(n - 1)]
+            elif kind == 'step1-row-e2' and n >= 3 and m >= 3:
+                A[0][0] = Q(9, 1, 1, 0); A[1] = [Q()] + [Q(0, 0, 8, 1)] + [Q() for _ in range(n - 2)]
+                for i in range(2, m): A[i][0] = Q()
+            out.append((f'structured-zeros:{kind}:{m}x{n}', A))
     for _ in range(150 if ctx.quick() else 2500):
         m, n = rng.randint(1, 5), rng.randint(1, 5)
         kind = rng.choice(['int', 'int', 'zerocol', 'rank1', 'zero', 'dupl'])
